@@ -50,7 +50,10 @@ def run(chk):
     chk.rule("C09.O8", "documented modifiers and pymath functions are exactly the registered ones", 2)
     chk.rule("C09.O9", "key normalisation: optionxform == dictionary transform; '=' and ':' both delimit (parser options untouched)", 5)
     chk.rule("C09.O10", "pymath.NAME forwards its arguments, in order, to the math function of the same name", 30)
+    chk.rule("C09.O11", "whole definitions, text to callable through the package's registries and builder: modifiers with constant, ranged and "
+             "nested arguments evaluate to the arithmetic their text states", 14)
     chk.attempt("O10", lambda: pymath_forwarding(chk, P))
+    chk.attempt("O11", lambda: whole_definitions(chk, P))
     chk.attempt("O1", lambda: modifiers(chk, P))
     chk.attempt("O1r", lambda: modifiers_repeated(chk, P))
     chk.attempt("O2", lambda: trans_value(chk, P))
@@ -78,9 +81,12 @@ def modifiers(chk, P):
         for n, w in ((2, want2[name]), (3, want[name])):
             I = F.make_interp(P)
             b = Builder()
-            res = I.run(fi, [ListV([W.param("defn%d" % i) for i in range(n)], "list"), PyObjV(b)])
+            # the argument definitions as the parser delivers them: 'as.f<i> <i>' (one range, default marker)
+            from ..eamrules import defn_value
+            defs = [defn_value(I, P, ("as.f%d" % i, [i], (">", 0), None)) for i in range(n)]
+            res = I.run(fi, [ListV(list(defs), "list"), PyObjV(b)])
             v = I.num(I.call(res, [Num(r)], {}))
-            ok = ep.equal(v, w)[0] and [x.key() for x in b.seen] == [W.param("defn%d" % i).key() for i in range(n)]
+            ok = ep.equal(v, w)[0] and [x.key() for x in b.seen] == [d.key() for d in defs]
             chk.ob("C09.O1", "%s(%s)(r) = %s, every argument built once, in order" % (name, ", ".join("f%d" % i for i in range(n)),
                    {"sum": "+", "product": "*", "pow": "**"}[name].join("f%d(r)" % i for i in range(n))), ok, site=fi.site(),
                    found=v, expect=w, key="C09.O1|%s|%d" % (name, n))
@@ -93,6 +99,51 @@ def modifiers(chk, P):
         v = I.num(I.call(res, [Num(r)], {}))
         chk.ob("C09.O1", "atsim.potentials.%s(a, b)(r) is the pointwise %s" % (name, {"plus": "sum", "product": "product", "pow": "power a**b"}[name]),
                ep.equal(v, w)[0], site=fi.site(), found=v, expect=w, key="C09.O1|api|%s" % name)
+
+
+WHOLE = [
+    # text of the definition, its meaning as a function of r (exact arithmetic; as.polynomial 0 1 is r, as.constant c is c;
+    # a part without marker acts for r > 0, '>=s' from s on, and contributes 0 (sum) below its start)
+    ("sum(as.polynomial 0 1, as.constant 1, >=2 as.constant -1)", lambda r: r + 1 + (-1 if r >= 2 else 0)),
+    ("sum(as.polynomial 0 1, >=2 as.constant -1, as.constant 1)", lambda r: r + (-1 if r >= 2 else 0) + 1),
+    ("product(as.polynomial 0 1, as.constant 2, >=2 as.constant 3)", lambda r: r * 2 * (3 if r >= 2 else 0)),
+    ("sum(as.constant 1, as.constant 2, as.polynomial 0 1)", lambda r: 3 + r),
+    ("product(as.constant 2, as.constant 3, as.polynomial 0 1)", lambda r: 6 * r),
+    ("sum(as.constant 1 >=2 as.constant 5, as.constant 10)", lambda r: (1 if r < 2 else 5) + 10),
+    ("sum(as.constant 10, as.constant 1 >=2 as.constant 5)", lambda r: 10 + (1 if r < 2 else 5)),
+    ("sum(as.constant 1, sum(as.polynomial 0 1, as.constant 2))", lambda r: 1 + (r + 2)),
+    ("product(as.constant 2, product(as.polynomial 0 1, as.constant 3))", lambda r: 2 * (r * 3)),
+    ("pow(as.constant 2, pow(as.polynomial 0 1, as.constant 2))", lambda r: 2 ** (r ** 2)),
+    ("pow(pow(as.polynomial 0 1, as.constant 2), as.constant 3)", lambda r: (r ** 2) ** 3),
+    ("pow(as.polynomial 0 1, as.constant 2, as.constant 3)", lambda r: (r ** 2) ** 3),
+    ("pow(as.constant 2, as.constant 3, as.polynomial 0 1)", lambda r: (2 ** 3) ** r),
+    ("sum(as.polynomial 0 1, >=2 sum(as.constant 1, as.constant 1))", lambda r: r + (2 if r >= 2 else 0)),
+    ("product(sum(as.constant 1, as.polynomial 0 1), sum(as.constant 2, as.polynomial 0 1))", lambda r: (1 + r) * (2 + r)),
+    ("sum(product(as.constant 2, as.polynomial 0 1), pow(as.polynomial 0 1, as.constant 2))", lambda r: 2 * r + r ** 2),
+    ("as.polynomial 0 1 >=2 sum(as.constant 3, as.constant 4) >3 as.constant 1", lambda r: r if r < 2 else (7 if r <= 3 else 1)),
+]
+
+
+def whole_definitions(chk, P):
+    site = P.module(MODS).relpath
+    for text, meaning in WHOLE:
+        J, pot = F.real_potential(P, text)
+        probes = (1, 2, 3, 4)
+        want = [meaning(r) for r in probes]
+        if J is None:
+            got = pot
+        else:
+            got = []
+            for r in probes:
+                try:
+                    v = J.num(J.call(pot, [Num(ep.const(r))], {}))
+                    c = v.as_const() if hasattr(v, "as_const") else None
+                    got.append(c if c is not None else repr(v))
+                except RaiseSignal as e:
+                    got.append("raises %r" % (e.exc,))
+        ok = isinstance(got, list) and all(isinstance(g, (int, float)) or hasattr(g, "numerator") for g in got) and \
+            all(g == w for g, w in zip(got, want))
+        chk.ob("C09.O11", "%r is %s at r = 1, 2, 3, 4" % (text, want), ok, site=site, found=got, expect=want, key="C09.O11|%s" % text)
 
 
 def modifiers_repeated(chk, P):
